@@ -37,6 +37,7 @@ def stv_replay(P, picks_or_first):
     return remaining[0], None, had_tie
 
 class C12(Prop):
+    layouts = True
     translators = ['copeland', 'stv']   # Copeland.score regenerated from deterministic_tournament.py on every run
     pid = "C12"
     sources = ["socialchoicekit/deterministic_tournament.py", "socialchoicekit/deterministic_multiround.py", "socialchoicekit/utils.py"]
